@@ -26,7 +26,59 @@ pub enum URecipe {
     /// a LATER stage of the pipeline: a rational kernel point of the 11-isogeny (G1), a point of small order,
     /// a pure cofactor point [r]R (all mapped to the identity by the composition), a point of order r
     StagePreimage(u16),
+    /// an input constructed backwards from a STRUCTURED intermediate value of the SSWU computation:
+    /// stage 0: N = Z^2 u^4 + Z u^2, 1: w = Z u^2, 2: u^2, 3: x1 = (-B/A)(1 + 1/N); shape (Fq2 only)
+    /// 0: (c,0)  1: (0,c)  2: (c,c)  3: (c,-c); `pick` chooses among the square roots
+    Structured { stage: u8, shape: u8, c: FeR, pick: u8 },
 }
+
+/// invert the chain x1 -> N -> w -> u^2 -> u with square roots; None when a root does not exist
+fn u_from_stage<F: SqrtFld>(curve: &refmodel::curve::Curve<F>, zc: &F, stage: u8, e: &F, pick: u8) -> Option<F> {
+    let inv2 = F::from_u64(2).inv().unwrap();
+    let n_to_w = |n: &F| -> Option<F> {
+        let s = F::one().add(&n.mul_u64(4)).sqrt()?;
+        let s = if pick & 1 == 1 { s.neg() } else { s };
+        Some(s.sub(&F::one()).mul(&inv2))
+    };
+    let w_to_u2 = |w: &F| w.mul(&zc.inv().unwrap());
+    let u2_to_u = |u2: &F| -> Option<F> {
+        let r = u2.sqrt()?;
+        Some(if pick & 2 == 2 { r.neg() } else { r })
+    };
+    match stage % 4 {
+        0 => u2_to_u(&w_to_u2(&n_to_w(e)?)),
+        1 => u2_to_u(&w_to_u2(e)),
+        2 => u2_to_u(e),
+        _ => {
+            // x1 = (-B/A)(1 + 1/N)  =>  1/N = -x1 A/B - 1
+            let d = e.mul(&curve.a).mul(&curve.b.inv()?).neg().sub(&F::one());
+            u2_to_u(&w_to_u2(&n_to_w(&d.inv()?)?))
+        }
+    }
+}
+
+fn structured_u<F: SqrtFld>(curve: &refmodel::curve::Curve<F>, zc: &F, stage: u8, c: &Fq, pick: u8, shape: &dyn Fn(&Fq) -> F) -> F {
+    let mut c = c.clone();
+    for _ in 0..64 {
+        if let Some(u) = u_from_stage(curve, zc, stage, &shape(&c), pick) {
+            return u;
+        }
+        c = c.add(&Fq::one());
+    }
+    F::one()
+}
+
+fn shape_fq2(shape: u8) -> impl Fn(&Fq) -> Fq2 {
+    move |c: &Fq| match shape % 4 {
+        0 => Fq2::new(c.clone(), Fq::zero()),
+        1 => Fq2::new(Fq::zero(), c.clone()),
+        2 => Fq2::new(c.clone(), c.clone()),
+        _ => Fq2::new(c.clone(), c.neg()),
+    }
+}
+
+const STAGE_NAMES: [&str; 4] = ["N=Z^2u^4+Zu^2", "w=Zu^2", "u^2", "x1"];
+const SHAPE_NAMES: [&str; 4] = ["(c,0)", "(0,c)", "(c,c)", "(c,-c)"];
 
 #[derive(Clone, Debug, Serialize, Deserialize, PartialEq, Eq, Hash)]
 pub enum Second {
@@ -54,6 +106,7 @@ fn u_strategy() -> BoxedStrategy<URecipe> {
         1 => Just(URecipe::MinusOne),
         2 => any::<bool>().prop_map(URecipe::Exceptional),
         3 => any::<u16>().prop_map(URecipe::StagePreimage),
+        4 => (0u8..4, 0u8..4, fq_strategy(), 0u8..4).prop_map(|(stage, shape, c, pick)| URecipe::Structured { stage, shape, c, pick }),
     ]
     .boxed()
 }
@@ -123,6 +176,17 @@ fn pick<T>(v: &[T], i: u16) -> &T {
     &v[(i as usize * v.len()) >> 16]
 }
 
+pub fn structured_class(group: u8, u: &URecipe) -> Option<String> {
+    match u {
+        URecipe::Structured { stage, shape, .. } => Some(if group == 0 {
+            format!("u-from-structured-intermediate:{}", STAGE_NAMES[*stage as usize % 4])
+        } else {
+            format!("u-from-structured-intermediate:{}:{}", STAGE_NAMES[*stage as usize % 4], SHAPE_NAMES[*shape as usize % 4])
+        }),
+        _ => None,
+    }
+}
+
 fn stage_class(group: u8, u: &URecipe) -> Option<&'static str> {
     match u {
         URecipe::StagePreimage(i) => Some(if group == 0 { pick(&stage_pool_g1().items, *i).0 } else { pick(&stage_pool_g2().items, *i).0 }),
@@ -152,6 +216,7 @@ pub fn u_g1(u: &URecipe) -> Fq {
             if *s { a } else { b }
         }
         URecipe::StagePreimage(i) => pick(&stage_pool_g1().items, *i).1.clone(),
+        URecipe::Structured { stage, c, pick, .. } => structured_u(&e1_iso(), &h2c::z1(), *stage, &c.fq(), *pick, &|c: &Fq| c.clone()),
     }
 }
 
@@ -167,12 +232,17 @@ pub fn u_g2(u: &URecipe) -> Fq2 {
             Fq2::new(if *s { a } else { b }, Fq::zero())
         }
         URecipe::StagePreimage(i) => pick(&stage_pool_g2().items, *i).1.clone(),
+        URecipe::Structured { stage, shape, c, pick } => structured_u(&e2_iso(), &h2c::z2(), *stage, &c.fq(), *pick, &shape_fq2(*shape)),
     }
 }
 
 fn check_map(c: &MapCase, info: &mut Info) -> Result<(), String> {
     if let Some(cl) = stage_class(c.group, &c.u0) {
         info.class(format!("u0-sswu-preimage-of:{}", cl));
+        info.nt();
+    }
+    if let Some(cl) = structured_class(c.group, &c.u0) {
+        info.class(cl);
         info.nt();
     }
     if let Second::Independent(u) = &c.second {
@@ -328,7 +398,7 @@ fn check_seq(c: &SeqCase, info: &mut Info) -> Result<(), String> {
 pub fn def() -> PropDef {
     PropDef {
         id: "C14",
-        rule: "u from the field-element generator plus 0, +-1, (G1) the SSWU-exceptional roots +-sqrt(-1/11), and inputs constructed by inverting the SSWU map on points of E' that are special for the later stages (rational kernel points of the 11-isogeny, small-order points, pure cofactor points [r]R - the composition sends all of them to the identity - and order-r points); pairs (u0, u1): independent, u1 = u0, u1 = -u0, and partners constructed by the model (solving two quadratics for Z u'^2) with u1 not in {+-u0} and sswu(u1) = sswu(u0) resp. = -sswu(u0). Oracle: model clear_cofactor(iso(sswu(u))) and clear_cofactor(iso(sswu(u0)) + iso(sswu(u1))) with + the model law on the target curve; model subgroup test; no panic. Non-trivial = pair with coinciding or inverse SSWU images, or an input that is a constructed SSWU preimage of a stage-special point; distinct = distinct cases",
+        rule: "u from the field-element generator plus 0, +-1, (G1) the SSWU-exceptional roots +-sqrt(-1/11), and inputs constructed by inverting the SSWU map on points of E' that are special for the later stages (rational kernel points of the 11-isogeny, small-order points, pure cofactor points [r]R - the composition sends all of them to the identity - and order-r points), and inputs constructed backwards (square roots) from structured intermediate values of the SSWU computation; pairs (u0, u1): independent, u1 = u0, u1 = -u0, and partners constructed by the model (solving two quadratics for Z u'^2) with u1 not in {+-u0} and sswu(u1) = sswu(u0) resp. = -sswu(u0). Oracle: model clear_cofactor(iso(sswu(u))) and clear_cofactor(iso(sswu(u0)) + iso(sswu(u1))) with + the model law on the target curve; model subgroup test; no panic. Non-trivial = pair with coinciding or inverse SSWU images, or an input that is a constructed SSWU preimage of a stage-special point or backwards from a structured intermediate value (N, Z u^2, u^2 or x1 of shape (c,0), (0,c), (c,c), (c,-c) in Fq2; the generator's structured Fq values in G1); distinct = distinct cases",
         needs_pairing: false,
         subs: vec![
             Box::new(Sub { name: "g1", rule: "G1 map_to_curve and map2_to_curve vs model composition", quick: 3_750, thorough: 50_000, strategy: || boxed(map_case_strategy(0)), check: check_map }),
